@@ -15,3 +15,5 @@ def run(ctx):
     from ..scen_stages import stage_steps
     from ..scen_ctx import contexts
     stage_steps(ctx, want=('contract',)); contexts(ctx)      # every stage hands on a context derived from the one it received (the input context travels with it)
+    from ..conform import conformance
+    conformance(ctx, ['input-context'])      # the references the obligations are stated against, compared with jawk::go on concrete runs (validates the oracles; never decides)
